@@ -432,10 +432,10 @@ func (in *Interp) writeTo(fr *frame, w value, data value) value {
 			return in.bufWrite(fr, st, data)
 		}
 	}
-	if m := in.prog.LookupMethod(itf.t, nil, "WriteString"); m != nil {
+	if m := in.anyMethod(itf.t, "WriteString"); m != nil {
 		return in.call(fr, 0, m, []value{itf.v, data})
 	}
-	m := in.prog.LookupMethod(itf.t, nil, "Write")
+	m := in.anyMethod(itf.t, "Write")
 	if m == nil {
 		panic(fmt.Sprintf("writeTo: %v has no Write", itf.t))
 	}
